@@ -56,16 +56,19 @@ type Event struct {
 // ---------------------------------------------------------------------------------------------- inputs
 
 type Input struct {
-	Name  string  `json:"name"`
-	Env   string  `json:"env"` // normal / ro_dir / longname / ro_file : the environment the command runs in
-	Fmt   string  `json:"fmt"` // text / fail / panic : what `falco fmt FILE` does
-	L     int     `json:"L"`
-	Olen  int     `json:"olen"`
-	Opfx  int     `json:"opfx"`
-	Steps []Event `json:"steps"`
-	End   string  `json:"end"`
-	File  string  `json:"file"`    // path of the original bytes
-	NewF  string  `json:"newfile"` // path of the text `falco fmt FILE` prints
+	Name    string  `json:"name"`
+	Env     string  `json:"env"` // normal / ro_dir / longname / ro_file : the environment the command runs in
+	Fmt     string  `json:"fmt"` // text / fail / panic : what `falco fmt FILE` does
+	L       int     `json:"L"`
+	Olen    int     `json:"olen"`
+	Opfx    int     `json:"opfx"`
+	Steps   []Event `json:"steps"`
+	End     string  `json:"end"`
+	Left    int     `json:"left"`     // bytes of the temporary file an earlier, killed run left behind (-1: no history)
+	LeftSrc string  `json:"left_src"` // history: the file that earlier run was formatting
+	LeftAt  int     `json:"left_at"`  // history: the call at whose entry that run was killed
+	File    string  `json:"file"`     // path of the original bytes
+	NewF    string  `json:"newfile"`  // path of the text `falco fmt FILE` prints
 }
 
 func genDecl(r *rand.Rand, n int) string {
@@ -130,19 +133,21 @@ func cmdExtract(args []string) int {
 	dir := fs.String("dir", "", "work dir")
 	big := fs.Int("big", 300, "size of the big input in KiB")
 	extra := fs.Int("extra", 0, "additional random declaration files")
-	envs := fs.String("envs", "ro_dir,longname,ro_file", "environments besides normal")
+	envs := fs.String("envs", "ro_dir,longname,ro_file,wx_dir", "environments besides normal")
 	fs.Parse(args) // nolint:errcheck
 	r := rand.New(rand.NewSource(hx.Seed()))
 	inDir := filepath.Join(*dir, "inputs")
 	os.MkdirAll(inDir, 0o755) // nolint:errcheck
 	type src struct{ name, text string }
 	decl := genDecl(r, 3+r.Intn(4))
+	shortDecl := fmt.Sprintf("acl  s%d {\n}\n", r.Intn(100)) // shorter than decl, also after formatting
 	var bigb strings.Builder
 	for bigb.Len() < *big*1024 {
 		bigb.WriteString(genDecl(r, 50))
 	}
 	srcs := []src{
 		{"decl", decl},
+		{"short", shortDecl},
 		{"snippet", fmt.Sprintf("set req.http.A%d = \"1\";\nunset req.http.B;\n", r.Intn(100))},
 		{"syntaxerr", fmt.Sprintf("sub vcl_recv {\n set req.http.a%d = ;\n}\n", r.Intn(100))},
 		{"errorstmt", "sub vcl_recv {\n  error;\n}\n"},
@@ -154,7 +159,7 @@ func cmdExtract(args []string) int {
 	}
 	var inputs []Input
 	add := func(s src) (Input, error) {
-		in := Input{Name: s.name, Env: "normal", Olen: len(s.text)}
+		in := Input{Name: s.name, Env: "normal", Olen: len(s.text), Left: -1}
 		in.File = filepath.Join(inDir, s.name+".vcl")
 		in.NewF = filepath.Join(inDir, s.name+".new")
 		if err := os.WriteFile(in.File, []byte(s.text), 0o644); err != nil {
@@ -209,6 +214,7 @@ func cmdExtract(args []string) int {
 		inputs = append(inputs, in)
 		// the same file in hostile environments: each gets its own extracted protocol
 		if s.name == "decl" || s.name == "snippet" {
+			_ = shortDecl
 			for _, env := range strings.Split(*envs, ",") {
 				if env == "" || env == "normal" {
 					continue
@@ -232,6 +238,38 @@ func cmdExtract(args []string) int {
 				return 2
 			}
 			inputs = append(inputs, in2)
+		}
+	}
+	// two-run histories: run 1 (on the longer file "decl") is killed at every call after which a temporary file exists,
+	// then the file is replaced by a shorter one and the command runs again
+	var declIn, shortIn *Input
+	for i := range inputs {
+		if inputs[i].Name == "decl" {
+			declIn = &inputs[i]
+		}
+		if inputs[i].Name == "short" {
+			shortIn = &inputs[i]
+		}
+	}
+	if declIn != nil && shortIn != nil && declIn.Fmt == "text" && shortIn.Fmt == "text" {
+		first := 0
+		for j, st := range declIn.Steps {
+			if st.Obj == "tmp" && st.Res == "ok" && (st.Op == "creat" || st.Op == "open_trunc" || st.Op == "open_wr") {
+				first = j + 1
+				break
+			}
+		}
+		for j := first + 1; first > 0 && j <= len(declIn.Steps); j++ {
+			ie := *shortIn
+			ie.Name, ie.Env, ie.Steps = fmt.Sprintf("short@left%d", j), fmt.Sprintf("left:%d", j), nil
+			ie.LeftSrc, ie.LeftAt = declIn.File, j
+			o := runOne(*falco, *dir, &ie, runSpec{ID: "extract_" + ie.Name})
+			if o.Err != "" || o.Exit == "killed" || o.Why != "" {
+				fmt.Fprintf(os.Stderr, "environment %s not available: %s %s\n", ie.Env, o.Err, o.Why)
+				continue
+			}
+			ie.Steps, ie.End, ie.Left = o.Events, o.Exit, o.LeftBytes
+			inputs = append(inputs, ie)
 		}
 	}
 	out := hx.NewOut()
@@ -261,21 +299,22 @@ type Content struct {
 }
 
 type Obs struct {
-	ID       string   `json:"id"`
-	Inp      string   `json:"inp"`
-	Sched    []Fault  `json:"sched"`
-	How      string   `json:"how"`
-	Realised bool     `json:"realised"`
-	Why      string   `json:"why,omitempty"`
-	Events   []Event  `json:"events"`
-	Exit     string   `json:"exit"`
-	Rc       int      `json:"rc"`
-	File     Content  `json:"file"`
-	Tmp      bool     `json:"tmp"`
-	Left     []string `json:"left,omitempty"`
-	Stderr   string   `json:"stderr,omitempty"`
-	Attempts int      `json:"attempts"`
-	Err      string   `json:"err,omitempty"` // machinery problem
+	ID        string   `json:"id"`
+	Inp       string   `json:"inp"`
+	Sched     []Fault  `json:"sched"`
+	How       string   `json:"how"`
+	Realised  bool     `json:"realised"`
+	Why       string   `json:"why,omitempty"`
+	Events    []Event  `json:"events"`
+	Exit      string   `json:"exit"`
+	Rc        int      `json:"rc"`
+	File      Content  `json:"file"`
+	Tmp       bool     `json:"tmp"`
+	Left      []string `json:"left,omitempty"`
+	Stderr    string   `json:"stderr,omitempty"`
+	Attempts  int      `json:"attempts"`
+	LeftBytes int      `json:"left_bytes"`
+	Err       string   `json:"err,omitempty"` // machinery problem
 }
 
 func classify(after []byte, exists bool, orig, newb []byte, hasNew bool) Content {
@@ -347,6 +386,43 @@ func runOne(falco, base string, in *Input, rs runSpec) Obs {
 		os.Chmod(target, 0o444) // nolint:errcheck
 		os.Chmod(rundir, 0o777) // nolint:errcheck
 		envWrap = nobody
+	case "wx_dir": // files can be created and renamed in the directory, the directory itself cannot be opened
+		os.Chown(target, 65534, 65534) // nolint:errcheck
+		os.Chown(rundir, 65534, 65534) // nolint:errcheck
+		os.Chmod(rundir, 0o300)        // nolint:errcheck
+		envWrap = nobody
+	}
+	leftPaths := map[string]bool{}
+	if strings.HasPrefix(in.Env, "left:") {
+		// history: an earlier run on the longer file, killed on entry to call LeftAt
+		longer, err := os.ReadFile(in.LeftSrc)
+		if err != nil {
+			o.Err = err.Error()
+			return o
+		}
+		os.WriteFile(target, longer, 0o644) // nolint:errcheck
+		tr1 := trace([]string{falco, "fmt", "-w", target}, rundir, append(cleanEnv(), "HOME="+rundir), target, tamper{at: in.LeftAt, kind: "kill"})
+		if tr1.err != nil || tr1.killedBy != syscall.SIGKILL {
+			o.Why = "the earlier run was not killed"
+			return o
+		}
+		ents, _ := os.ReadDir(rundir)
+		for _, e := range ents {
+			if e.Name() != base0 {
+				leftPaths[filepath.Join(rundir, e.Name())] = true
+				if fi, err := e.Info(); err == nil && int(fi.Size()) >= o.LeftBytes {
+					o.LeftBytes = int(fi.Size())
+				}
+			}
+		}
+		if len(leftPaths) == 0 {
+			o.Why = "the killed run left nothing behind"
+			return o
+		}
+		if err := os.WriteFile(target, orig, 0o644); err != nil { // the file is changed (shortened) in between
+			o.Err = err.Error()
+			return o
+		}
 	}
 	var tp tamper
 	var f *Fault
@@ -410,6 +486,7 @@ func runOne(falco, base string, in *Input, rs runSpec) Obs {
 			argv[i] = p
 		}
 	}
+	tp.left = leftPaths
 	tr := trace(argv, rundir, append(cleanEnv(), "HOME="+rundir), target, tp)
 	if tr.err != nil {
 		o.Err = "tracer: " + tr.err.Error()
@@ -627,7 +704,7 @@ func cmdMulti(args []string) int {
 	files := make([]*mf, *n)
 	for i := range files {
 		text := fmt.Sprintf("# file %d\n", i) + genDecl(r, 1+r.Intn(3))
-		f := &mf{Input: Input{Name: fmt.Sprintf("mf%03d", i), Env: "multi", Olen: len(text)}, orig: []byte(text)}
+		f := &mf{Input: Input{Name: fmt.Sprintf("mf%03d", i), Env: "multi", Olen: len(text), Left: -1}, orig: []byte(text)}
 		f.File = filepath.Join(src, f.Name+".vcl")
 		os.WriteFile(f.File, f.orig, 0o644) // nolint:errcheck
 		files[i] = f
